@@ -337,7 +337,11 @@ def parse_place_notation(input_string: str) -> Tuple[int, str]:
         stage_part = parts[0]
         if len(stage_part) == 0 or not stage_part.isnumeric():
             raise PlaceNotationError(input_string, "Stage must be a number")
-        stage = int(stage_part)
+        try:
+            stage = int(stage_part)
+        except ValueError as e:
+            # `isnumeric` accepts characters (e.g. superscripts, fractions) that `int` does not
+            raise PlaceNotationError(input_string, "Stage must be a number") from e
         place_notation = parts[1]
         if not valid_pn(place_notation):
             raise PlaceNotationError(input_string, "Place notation is invalid")
